@@ -1027,10 +1027,11 @@ def _dictionary_order_again(mon, which, fn, bindings, ctx, place, xfirst, dorder
 AFTER_REFUSED = ":first-call-after-a-refused-call-on-an-earlier-trace"
 
 
-def _refused_call_first(case, ctx, mon, prng, fn, extra, tmp, line_sz, inf_bits, loop_ranks):
+def _refused_call_first(case, ctx, mon, prng, fn, extra, tdn, tmp, line_sz, inf_bits, loop_ranks):
     """History before the call under test: an earlier run of the kernel wrote other (well-formed) traces to the very
     paths of this run, a model call on them was refused because the type of one binding does not fit the layout of
-    its rank (not a well-formed binding: nothing about that call is judged, whatever it does), then the kernel was
+    its rank (not a well-formed binding: nothing about that call is judged, whatever it does; it is handed `tdn`, the
+    trace dictionary of the call under test, so whatever it leaves behind is named like that call's own temporaries), then the kernel was
     run again, i.e. the trace files are rewritten with the rows of this case.  Nothing is cleaned up in between.  The
     statement speaks about `given traces`: what the next call charges is a function of the files as they are now.
     -> did the refused call raise and leave files behind?"""
@@ -1058,10 +1059,9 @@ def _refused_call_first(case, ctx, mon, prng, fn, extra, tmp, line_sz, inf_bits,
     bindings = [dict(b, **extra) for b in ctx["bind"]]
     j = prng.randrange(len(bindings))
     bindings[j]["type"] = prng.choice(["payload", "coord"]) if bindings[j]["type"] == "elem" else "elem"
-    ident = {i: i for i in range(len(bindings))}
     refused = False
     try:
-        fn(bindings, ctx["formats"], _trace_dict(ctx, ident, 0), inf_bits, line_sz, loop_ranks=loop_ranks)
+        fn(bindings, ctx["formats"], dict(tdn), inf_bits, line_sz, loop_ranks=loop_ranks)
     except BaseException as e:      # noqa
         if isinstance(e, KeyboardInterrupt):
             raise
@@ -1123,8 +1123,8 @@ def _run_model_case(case, mon, tmp, files=None, tagx=""):
         import random
         hrng = random.Random(case["earlier"])
 
-    def history(fn, extra):
-        if _refused_call_first(case, ctx, mon, hrng, fn, extra, tmp, line_sz, inf_bits, loop_ranks()):
+    def history(fn, extra, tdn):
+        if _refused_call_first(case, ctx, mon, hrng, fn, extra, tdn, tmp, line_sz, inf_bits, loop_ranks()):
             hist[0] = AFTER_REFUSED
             mon.count("calls_after_a_refused_call_that_left_files")
 
@@ -1181,7 +1181,7 @@ def _run_model_case(case, mon, tmp, files=None, tagx=""):
                     tdn, dorder = tdict(eno)
                     hist[0] = ""
                     if hrng is not None and full and cj == 0:
-                        history(Traffic.buffetTraffic, {"evict-on": "root"})
+                        history(Traffic.buffetTraffic, {"evict-on": "root"}, tdn)
                     ok, res = _call(mon, "buffetTraffic",
                                     lambda: Traffic.buffetTraffic(bindings, ctx["formats"], dict(tdn), cap_bits,
                                                                   line_sz, loop_ranks=loop_ranks()), tmp, ctx["keep"])
@@ -1192,7 +1192,7 @@ def _run_model_case(case, mon, tmp, files=None, tagx=""):
                     if ctx["xtraces"]:
                         mon.count("calls_with_unbound_trace_entries")
                     if not ok:
-                        mon.violation(f"buffetTraffic:raised:{type(res).__name__}{ftag}{tag}{hist[0]}",
+                        mon.violation(f"buffetTraffic:raised:{type(res).__name__}{ftag}{tag}",
                                       f"buffetTraffic raised {type(res).__name__}: {res} (evict-on {evict}, capacity "
                                       f"{cap_bits!r} bits, bindings listed {listing})")
                         continue
@@ -1256,7 +1256,7 @@ def _run_model_case(case, mon, tmp, files=None, tagx=""):
                 tdn, dorder = tdict(0)
                 hist[0] = ""
                 if hrng is not None and full and cj in (0, 2):
-                    history(Traffic.cacheTraffic, {})
+                    history(Traffic.cacheTraffic, {}, tdn)
                 ok, res = _call(mon, "cacheTraffic",
                                 lambda: Traffic.cacheTraffic(bindings, ctx["formats"], dict(tdn), cap_bits,
                                                              line_sz, loop_ranks=loop_ranks()), tmp, ctx["keep"])
@@ -1276,7 +1276,7 @@ def _run_model_case(case, mon, tmp, files=None, tagx=""):
                         cls = ":staging-lines-beside-another-binding"
                     else:
                         cls = tag
-                    mon.violation(f"cacheTraffic:raised:{type(res).__name__}{cls}{hist[0]}",
+                    mon.violation(f"cacheTraffic:raised:{type(res).__name__}{cls}",
                                   f"cacheTraffic raised {type(res).__name__}: {res} (capacity {cap_bits!r} bits = "
                                   f"{cap_lines} lines, bindings listed {listing})")
                     prev = None
